@@ -46,6 +46,9 @@ pub enum Fault {
     AcceptErr { on_client: bool, n: u32 },
     /// QUIC cells: datagrams to the server's QUIC port - random bytes, or something shaped like a long-header Initial packet
     DgramToServer { bytes: Vec<u8>, n: u32 },
+    /// QUIC cells: a real QUIC client whose handshake cannot succeed: 0 = offers a foreign ALPN only, 1 = offers no ALPN,
+    /// 2 = does not trust the server's certificate, 3 = goes away right after its first flight
+    QuicBadHandshake { kind: u8 },
 }
 
 pub fn fault_name(f: &Fault) -> String {
@@ -56,6 +59,7 @@ pub fn fault_name(f: &Fault) -> String {
         Fault::BadTarget { fault } => format!("target-{fault}"),
         Fault::ResetFlow { by_app } => format!("reset-by-{}", if *by_app { "application" } else { "target" }),
         Fault::AcceptErr { on_client, .. } => format!("accept-emfile-{}", if *on_client { "client" } else { "server" }),
+        Fault::QuicBadHandshake { kind } => format!("quic-handshake-{}", ["foreign-alpn", "no-alpn", "untrusted-certificate", "abandoned"][*kind as usize % 4]),
         Fault::DgramToServer { bytes, .. } => format!("{}-datagrams-to-quic-port", if bytes.first().is_some_and(|b| b & 0xc0 == 0xc0) { "initial-like" } else { "garbage" }),
     }
 }
@@ -73,6 +77,9 @@ fn raw_kind(b: &[u8]) -> &'static str {
 }
 
 pub fn gen_fault(g: &mut Gen, transport: Transport) -> Fault {
+    if transport == Transport::Quic && g.chance(25) {
+        return Fault::QuicBadHandshake { kind: g.below(4) as u8 };
+    }
     if transport == Transport::Quic && g.chance(25) {
         let n = g.range(1, 1300) as usize;
         let mut bytes = g.bytes(n);
@@ -199,6 +206,9 @@ async fn inject(ix: usize, f: &Fault, held: &mut Held) {
             tokio::task::yield_now().await;
             held._tasks.push(spawn_scoped(run_app(120 + ix, fl, obs, true)));
             tokio::time::sleep(Duration::from_millis(500)).await;
+        }
+        Fault::QuicBadHandshake { kind } => {
+            quic_bad_handshake(*kind).await;
         }
         Fault::DgramToServer { bytes, n } => {
             if let Ok(s) = octo_squirrel::verif::net::UdpSocket::bind(SocketAddr::new(IpAddr::V4(Ipv4Addr::LOCALHOST), 0)).await {
@@ -329,4 +339,38 @@ pub fn execute_c08(plan: &Plan) -> Outcome {
         extra_evaluations: 0,
         extra_cases: Vec::new(),
     }
+}
+
+/// A real quinn client on the simulated datagram socket whose handshake with the server cannot succeed.
+async fn quic_bad_handshake(kind: u8) {
+    use std::sync::Arc;
+    use tokio_rustls::rustls;
+    use tokio_rustls::rustls::pki_types::CertificateDer;
+    use tokio_rustls::rustls::pki_types::pem::PemObject;
+    let mut roots = rustls::RootCertStore::empty();
+    if kind % 4 != 2 {
+        if let Ok(cert) = CertificateDer::from_pem_file(CERT) {
+            let _ = roots.add(cert);
+        }
+    }
+    let mut tls = rustls::ClientConfig::builder().with_root_certificates(roots).with_no_client_auth();
+    tls.alpn_protocols = match kind % 4 {
+        0 => vec![b"h3".to_vec()],
+        1 => vec![],
+        _ => vec![b"http/1.1".to_vec()],
+    };
+    let Ok(crypto) = quinn::crypto::rustls::QuicClientConfig::try_from(tls) else { return };
+    let Ok(mut ep) = octo_squirrel::verif::quic::client_endpoint(SocketAddr::new(IpAddr::V4(Ipv4Addr::UNSPECIFIED), 0)) else { return };
+    ep.set_default_client_config(quinn::ClientConfig::new(Arc::new(crypto)));
+    let Ok(connecting) = ep.connect(server_addr(), "sim.test") else { return };
+    if kind % 4 == 3 {
+        // first flight out, then gone
+        tokio::time::sleep(Duration::from_millis(1)).await;
+        drop(connecting);
+        drop(ep);
+        return;
+    }
+    let _ = tokio::time::timeout(Duration::from_secs(5), connecting).await;
+    drop(ep);
+    tokio::time::sleep(Duration::from_millis(20)).await;
 }
